@@ -30,6 +30,9 @@
  *                            before its start routine runs ("slow or stalled node"): gram itself
  *                            creates one thread and joins it, so this changes nothing on the
  *                            current tree, but it makes a race that a change introduces show up
+ *   GRAMSIM_LINGER=<a,b,..>  after creating its k-th thread, the creating thread sleeps that many
+ *                            microseconds (it is descheduled right after clone, as happens under
+ *                            load), so the new thread runs first
  *   GRAMSIM_LOG=<path>       append one line per call: "<len> <flags> <ret>", one line
  *                            "S <heap> <mmap>" when the constructor displaced the layout, one
  *                            line "T" per simulated clock read and "P" per simulated getpid
@@ -70,6 +73,8 @@ static uint64_t clock_reads = 0;
 static long fake_pid = 0;
 static unsigned stall_us[16];
 static int stall_n = 0;
+static unsigned linger_us[16];
+static int linger_n = 0;
 static int threads_created = 0;
 
 static int hexval(int c) {
@@ -88,6 +93,7 @@ static uint64_t splitmix(uint64_t *s) {
 
 static void set_key_hex(const char *k);
 static void set_stalls(const char *list);
+static void set_lingers(const char *list);
 
 static void init_once(void) {
     if (ready) return;
@@ -109,6 +115,7 @@ static void init_once(void) {
     const char *fp = getenv("GRAMSIM_PID");
     if (fp) fake_pid = strtol(fp, NULL, 10);
     set_stalls(getenv("GRAMSIM_STALL"));
+    set_lingers(getenv("GRAMSIM_LINGER"));
     const char *l = getenv("GRAMSIM_LOG");
     if (l) log_fd = open(l, O_WRONLY | O_CREAT | O_APPEND | O_CLOEXEC, 0644);
 }
@@ -136,15 +143,24 @@ static void set_key_hex(const char *k) {
     for (size_t i = 0; i < key_len; i++) tail_state = tail_state * 0x100000001B3ULL + key_bytes[i];
 }
 
-static void set_stalls(const char *list) {
-    stall_n = 0;
-    threads_created = 0;
-    while (list && *list && stall_n < 16) {
+static int parse_list(const char *list, unsigned *out) {
+    int n = 0;
+    while (list && *list && n < 16) {
         char *end = NULL;
-        stall_us[stall_n++] = (unsigned)strtoul(list, &end, 10);
+        out[n++] = (unsigned)strtoul(list, &end, 10);
         if (!end || *end != ',') break;
         list = end + 1;
     }
+    return n;
+}
+
+static void set_stalls(const char *list) {
+    threads_created = 0;
+    stall_n = parse_list(list, stall_us);
+}
+
+static void set_lingers(const char *list) {
+    linger_n = parse_list(list, linger_us);
 }
 
 /* Displace the heap and the mmap area by the amounts the plan chose, and say so in the log. */
@@ -205,6 +221,7 @@ static void forkserver(char **argv) {
     char out_path[4096] = "", err_path[4096] = "", log_path[4096] = "", cwd[4096] = "";
     char key_hex[600] = "";
     char stall_list[256] = "";
+    char linger_list[256] = "";
     size_t heap = 0, map = 0;
     long p_eintr = 0, p_noinsecure = 0, p_chunk = 0, p_pid = 0;
     unsigned long long p_clock = 0, p_step = 0;
@@ -232,6 +249,7 @@ static void forkserver(char **argv) {
         }
         else if (!strncmp(line, "PID ", 4)) p_pid = strtol(line + 4, NULL, 10);
         else if (!strncmp(line, "STALL ", 6)) { strncpy(stall_list, line + 6, sizeof stall_list - 1); }
+        else if (!strncmp(line, "LINGER ", 7)) { strncpy(linger_list, line + 7, sizeof linger_list - 1); }
         else if (!strncmp(line, "LOG ", 4)) strncpy(log_path, line + 4, sizeof log_path - 1);
         else if (!strncmp(line, "OUT ", 4)) strncpy(out_path, line + 4, sizeof out_path - 1);
         else if (!strncmp(line, "ERR ", 4)) strncpy(err_path, line + 4, sizeof err_path - 1);
@@ -264,6 +282,7 @@ static void forkserver(char **argv) {
                 clock_owned = have_clock; clock_base = p_clock; clock_step = p_step; clock_reads = 0;
                 fake_pid = p_pid;
                 set_stalls(stall_list);
+                set_lingers(linger_list);
                 log_fd = log_path[0] ? open(log_path, O_WRONLY | O_CREAT | O_APPEND | O_CLOEXEC, 0644) : -1;
                 displace(heap, map);
                 return; /* on to the executable's initialisers and main */
@@ -285,7 +304,7 @@ static void forkserver(char **argv) {
             for (int i = 1; i < 16; i++) { free(arg_val[i]); arg_val[i] = NULL; }
             n_env_set = n_env_unset = 0;
             heap = map = 0; p_eintr = p_noinsecure = p_chunk = p_pid = 0; have_clock = 0;
-            out_path[0] = err_path[0] = log_path[0] = cwd[0] = key_hex[0] = stall_list[0] = 0;
+            out_path[0] = err_path[0] = log_path[0] = cwd[0] = key_hex[0] = stall_list[0] = linger_list[0] = 0;
         }
     }
 }
@@ -424,15 +443,24 @@ int pthread_create(pthread_t *thread, const pthread_attr_t *attr, void *(*start)
     if (!real) return EAGAIN;
     init_once();
     int k = __atomic_fetch_add(&threads_created, 1, __ATOMIC_SEQ_CST);
-    if (k < stall_n && stall_us[k] > 0) {
-        struct stalled_start *s = malloc(sizeof *s);
-        if (s) {
-            s->start = start; s->arg = arg; s->us = stall_us[k];
-            char line[64];
-            int n = snprintf(line, sizeof line, "Z %d %u\n", k, stall_us[k]);
-            if (n > 0) log_mark(line);
-            return real(thread, attr, stalled_trampoline, s);
-        }
+    int rc;
+    struct stalled_start *s = NULL;
+    if (k < stall_n && stall_us[k] > 0) s = malloc(sizeof *s);
+    if (s) {
+        s->start = start; s->arg = arg; s->us = stall_us[k];
+        char line[64];
+        int n = snprintf(line, sizeof line, "Z %d %u\n", k, stall_us[k]);
+        if (n > 0) log_mark(line);
+        rc = real(thread, attr, stalled_trampoline, s);
+    } else {
+        rc = real(thread, attr, start, arg);
     }
-    return real(thread, attr, start, arg);
+    if (rc == 0 && k < linger_n && linger_us[k] > 0) {
+        char line[64];
+        int n = snprintf(line, sizeof line, "Z %d -%u\n", k, linger_us[k]);
+        if (n > 0) log_mark(line);
+        struct timespec ts = { linger_us[k] / 1000000, (long)(linger_us[k] % 1000000) * 1000L };
+        while (nanosleep(&ts, &ts) != 0 && errno == EINTR) {}
+    }
+    return rc;
 }
